@@ -1,25 +1,18 @@
 import PyRt
 import Gen.util
 import Lemmas.Hoare
+import Lemmas.Str
 /-!
 # Lemmas.Util — facts about the *generated* `stdnum.util` (`clean`, `isdigits`)
 
 These are re-proved against the regenerated definitions on every run: a change to `util.py` that alters
 what `clean` or `isdigits` compute breaks them (and everything that depends on them).
+(`IsDigits`, `isDigitsB`, `join_nil_chars`, `strIn_single` live in `Lemmas.Str`.)
 -/
 open Py Std.Do
 set_option mvcgen.warning false
 
 namespace Py
-
-/-- non-empty and ASCII digits only -/
-def IsDigits (s : Str) : Prop := s ≠ [] ∧ AllIn isAsciiDigit s
-
-def isDigitsB (s : Str) : Bool := !s.isEmpty && s.all isAsciiDigit
-
-theorem isDigitsB_iff (s : Str) : isDigitsB s = true ↔ IsDigits s := by
-  unfold isDigitsB IsDigits AllIn
-  cases s <;> simp
 
 /-- the per-character clean-up function denoted by the generated table `_char_map` -/
 def cm (c : Nat) : Nat :=
@@ -30,51 +23,227 @@ def cm (c : Nat) : Nat :=
 /-- what `clean` computes on a string -/
 def cleanP (s d : Str) : Str := (s.map cm).filter (fun c => !d.contains c)
 
-theorem join_nil (l : List Str) : Py.join [] l = l.flatten := by
-  induction l with
-  | nil => rfl
-  | cons a t ih =>
-    cases t with
-    | nil => simp [Py.join]
-    | cons b t => simp [Py.join, ih]
-
-theorem flatten_chars (s : Str) : (Py.chars s).flatten = s := by
-  induction s with
-  | nil => rfl
-  | cons a t ih => simp_all [Py.chars]
-
-theorem join_nil_chars (s : Str) : Py.join [] (Py.chars s) = s := by
-  rw [join_nil, flatten_chars]
+/-! ## the table -/
 
 /-- all keys and values of the table are one-character strings (kernel-evaluated on the generated table) -/
 theorem char_map_single : ∀ p ∈ Gen.util._char_map, p.1.length = 1 ∧ p.2.length = 1 := by decide +kernel
 
-theorem dictGetD_char_map (c : Nat) : Py.dictGetD Gen.util._char_map [c] [c] = [cm c] := by
-  unfold Py.dictGetD cm Py.dictGet?
-  cases h : List.find? (fun p => p.1 == [c]) Gen.util._char_map with
-  | none => simp
+/-- a successful look-up returns an entry of the association list -/
+theorem dictGet?_mem {κ ν : Type} [BEq κ] [LawfulBEq κ] (d : List (κ × ν)) (k : κ) (v : ν)
+    (h : Py.dictGet? d k = some v) : (k, v) ∈ d := by
+  unfold Py.dictGet? at h
+  cases hf : List.find? (fun p => p.1 == k) d with
+  | none => simp [hf] at h
   | some p =>
-    have hm := List.mem_of_find?_eq_some h
-    have hl := (char_map_single p hm).2
-    simp only [Option.map_some, Option.getD_some]
-    match hp : p.2, hl with
+    rw [hf] at h
+    simp only [Option.map_some, Option.some.injEq] at h
+    have hm := List.mem_of_find?_eq_some hf
+    have hk := List.find?_some hf
+    simp only [beq_iff_eq] at hk
+    subst hk h
+    exact hm
+
+/-- a failed look-up: no entry has this key -/
+theorem dictGet?_none {κ ν : Type} [BEq κ] [LawfulBEq κ] (d : List (κ × ν)) (k : κ)
+    (h : Py.dictGet? d k = none) : ∀ p ∈ d, p.1 ≠ k := by
+  unfold Py.dictGet? at h
+  simp only [Option.map_eq_none_iff, List.find?_eq_none, beq_iff_eq] at h
+  exact h
+
+/-- lifting a (decidable, kernel-checked) property of all entries to `cm` -/
+theorem cm_cases (c : Nat) : cm c = c ∨ ([c], [cm c]) ∈ Gen.util._char_map := by
+  unfold cm
+  cases h : Py.dictGet? Gen.util._char_map [c] with
+  | none => exact Or.inl rfl
+  | some w =>
+    have hm := dictGet?_mem _ _ _ h
+    have hl := (char_map_single _ hm).2
+    match w, hl, hm with
+    | [v], _, hm => exact Or.inr hm
+
+theorem dictGetD_char_map (c : Nat) : Py.dictGetD Gen.util._char_map [c] [c] = [cm c] := by
+  unfold Py.dictGetD cm
+  cases h : Py.dictGet? Gen.util._char_map [c] with
+  | none => rfl
+  | some w =>
+    have hl := (char_map_single _ (dictGet?_mem _ _ _ h)).2
+    match w, hl with
     | [v], _ => rfl
 
-theorem strIn_single (c : Nat) (d : Str) : Py.strIn [c] d = d.contains c := by
-  sorry
+/-- the values of the table are ASCII and fixed points of `cm` -/
+theorem char_map_values : ∀ p ∈ Gen.util._char_map, ∀ v ∈ p.2, v < 128 ∧ cm v = v := by decide +kernel
+
+/-- the ASCII part of `cm`: the only ASCII character that is changed is the backtick (→ apostrophe) -/
+theorem cm_ascii_table : ∀ c, c < 128 → cm c = if c = 96 then 39 else c := by decide +kernel
+
+theorem cm_ascii {c : Nat} (h : c < 128) : cm c = c ∨ (c = 96 ∧ cm c = 39) := by
+  rw [cm_ascii_table c h]
+  by_cases h96 : c = 96 <;> simp [h96]
+
+theorem cm_of_ascii_ne {c : Nat} (h : c < 128) (h96 : c ≠ 96) : cm c = c := by
+  rw [cm_ascii_table c h, if_neg h96]
+
+@[simp] theorem cm_96 : cm 96 = 39 := cm_ascii_table 96 (by decide)
+
+theorem cm_ascii_alnum {c : Nat} (h : isAsciiAlnum c = true) : cm c = c := by
+  simp only [isAsciiAlnum, isAsciiDigit, isAsciiAlpha, isAsciiUpper, isAsciiLower, Bool.or_eq_true,
+    Bool.and_eq_true, decide_eq_true_eq] at h
+  exact cm_of_ascii_ne (by omega) (by omega)
+
+theorem cm_ascii_digit {c : Nat} (h : isAsciiDigit c = true) : cm c = c :=
+  cm_ascii_alnum (by simp only [isAsciiAlnum, h, Bool.true_or])
+
+theorem cm_lt_128 {c : Nat} (h : cm c ≠ c) : cm c < 128 := by
+  rcases cm_cases c with h' | hm
+  · exact absurd h' h
+  · exact (char_map_values _ hm (cm c) (by simp)).1
+
+@[simp] theorem cm_idem (c : Nat) : cm (cm c) = cm c := by
+  rcases cm_cases c with h' | hm
+  · rw [h', h']
+  · exact (char_map_values _ hm (cm c) (by simp)).2
+
+/-- `cm` maps ASCII to ASCII -/
+theorem cm_lt_128_of_lt {c : Nat} (h : c < 128) : cm c < 128 := by
+  by_cases hc : cm c = c
+  · rw [hc]; exact h
+  · exact cm_lt_128 hc
+
+/-! ## `cleanP` -/
+
+@[simp] theorem cleanP_nil (d : Str) : cleanP [] d = [] := rfl
+
+theorem cleanP_cons (c : Nat) (s d : Str) :
+    cleanP (c :: s) d = if d.contains (cm c) then cleanP s d else cm c :: cleanP s d := by
+  unfold cleanP
+  rw [List.map_cons, List.filter_cons]
+  by_cases h : d.contains (cm c) = true <;> simp
+
+@[simp] theorem cleanP_append (s t d : Str) : cleanP (s ++ t) d = cleanP s d ++ cleanP t d := by
+  simp [cleanP]
+
+theorem mem_cleanP {c : Nat} {s d : Str} :
+    c ∈ cleanP s d ↔ d.contains c = false ∧ ∃ c0 ∈ s, c = cm c0 := by
+  unfold cleanP
+  simp only [List.mem_filter, List.mem_map, Bool.not_eq_true']
+  constructor
+  · rintro ⟨⟨c0, h0, rfl⟩, hd⟩; exact ⟨hd, c0, h0, rfl⟩
+  · rintro ⟨hd, c0, h0, rfl⟩; exact ⟨⟨c0, h0, rfl⟩, hd⟩
+
+theorem not_mem_of_mem_cleanP {c : Nat} {s d : Str} (h : c ∈ cleanP s d) : c ∉ d := by
+  have := (mem_cleanP.mp h).1
+  simpa using this
+
+theorem cleanP_eq_self {s d : Str} (h : ∀ c ∈ s, cm c = c ∧ d.contains c = false) : cleanP s d = s := by
+  induction s with
+  | nil => rfl
+  | cons a t ih =>
+    have ha := h a (by simp)
+    rw [cleanP_cons, ha.1, ha.2, ih (fun c hc => h c (by simp [hc]))]
+    simp
+
+@[simp] theorem cleanP_idem (s d : Str) : cleanP (cleanP s d) d = cleanP s d := by
+  apply cleanP_eq_self
+  intro c hc
+  obtain ⟨hd, c0, _, rfl⟩ := mem_cleanP.mp hc
+  exact ⟨cm_idem c0, hd⟩
+
+theorem cleanP_sublist (s d : Str) : (cleanP s d).Sublist (s.map cm) := List.filter_sublist
+
+theorem cleanP_length_le (s d : Str) : (cleanP s d).length ≤ s.length := by
+  have := (cleanP_sublist s d).length_le
+  simpa using this
+
+/-- closure: a character class that holds of `cm c` for every input character that survives -/
+theorem AllIn.cleanP' {p : Nat → Bool} {s d : Str}
+    (h : ∀ c ∈ s, d.contains (cm c) = false → p (cm c) = true) : AllIn p (Py.cleanP s d) := by
+  intro c hc
+  obtain ⟨hd, c0, h0, rfl⟩ := mem_cleanP.mp hc
+  exact h c0 h0 hd
+
+theorem AllIn.cleanP {p : Nat → Bool} {s d : Str} (h : ∀ c ∈ s, p (cm c) = true) : AllIn p (Py.cleanP s d) :=
+  AllIn.cleanP' (fun c hc _ => h c hc)
+
+/-- ASCII input, class closed under `cm` on ASCII (only `` ` `` ↦ `'` matters) -/
+theorem AllIn.cleanP_of_ascii {p : Nat → Bool} {s d : Str} (hs : AllIn p s) (ha : ∀ c, p c = true → c < 128)
+    (h96 : p 96 = true → p 39 = true ∨ d.contains 39 = true) : AllIn p (Py.cleanP s d) := by
+  apply AllIn.cleanP'
+  intro c hc hd
+  have hpc := hs c hc
+  rcases cm_ascii (ha c hpc) with h | ⟨rfl, h⟩
+  · rw [h]; exact hpc
+  · rw [h] at hd ⊢
+    rcases h96 hpc with h' | h'
+    · exact h'
+    · rw [hd] at h'; cases h'
+
+/-- a class of ASCII alphanumerics is preserved -/
+theorem AllIn.cleanP_of_alnum {p : Nat → Bool} {s d : Str} (hs : AllIn p s)
+    (ha : ∀ c, p c = true → isAsciiAlnum c = true) : AllIn p (Py.cleanP s d) := by
+  apply AllIn.cleanP
+  intro c hc
+  rw [cm_ascii_alnum (ha c (hs c hc))]
+  exact hs c hc
+
+/-- `clean` leaves a string alone when nothing is mapped or deleted -/
+theorem cleanP_of_alnum {s d : Str} (hs : AllIn isAsciiAlnum s) (hd : ∀ c ∈ d, isAsciiAlnum c = false) :
+    cleanP s d = s := by
+  apply cleanP_eq_self
+  intro c hc
+  refine ⟨cm_ascii_alnum (hs c hc), ?_⟩
+  cases hcd : d.contains c with
+  | false => rfl
+  | true =>
+    have := hd c (by simpa using hcd)
+    rw [hs c hc] at this; cases this
+
+/-! ## the generated functions -/
+
+theorem map_chars_dictGetD (s : Str) :
+    (Py.chars s).map (fun x => Py.dictGetD Gen.util._char_map x x) = Py.chars (s.map cm) := by
+  induction s with
+  | nil => rfl
+  | cons a t ih => simp only [chars_cons, List.map_cons, ih, dictGetD_char_map]
+
+theorem filterMap_chars_strIn (s d : Str) :
+    (Py.chars s).filterMap (fun x => if !(Py.strIn x d) then some x else none)
+      = Py.chars (s.filter (fun c => !d.contains c)) := by
+  induction s with
+  | nil => rfl
+  | cons a t ih =>
+    rw [chars_cons, List.filterMap_cons, ih, strIn_single, List.filter_cons]
+    cases d.contains a <;> simp
+
+theorem clean_chars_eq (s : Str) : Gen.util._clean_chars s = .ok (s.map cm) := by
+  unfold Gen.util._clean_chars
+  rw [map_chars_dictGetD, join_nil_chars]
+  rfl
 
 theorem clean_eq (s d : Str) : Gen.util.clean s d = .ok (cleanP s d) := by
-  sorry
+  unfold Gen.util.clean
+  simp only [List.map_id', join_nil_chars, clean_chars_eq, filterMap_chars_strIn]
+  rfl
 
 @[spec] theorem clean_spec (s d : Str) :
     ⦃⌜True⌝⦄ Gen.util.clean s d ⦃post⟨fun r => ⌜r = cleanP s d⌝, fun _ => ⌜False⌝⟩⦄ :=
   triple_of_Ok ⟨_, clean_eq s d, rfl⟩
 
 theorem isdigits_eq (s : Str) : Gen.util.isdigits s = .ok (isDigitsB s) := by
-  sorry
+  unfold Gen.util.isdigits Re.match_ isDigitsB
+  simp only []
+  cases h : (!s.isEmpty && s.all isAsciiDigit) <;> simp <;> rfl
 
 @[spec] theorem isdigits_spec (s : Str) :
     ⦃⌜True⌝⦄ Gen.util.isdigits s ⦃post⟨fun b => ⌜b = isDigitsB s⌝, fun _ => ⌜False⌝⟩⦄ :=
   triple_of_Ok ⟨_, isdigits_eq s, rfl⟩
+
+/-! ## non-vacuity -/
+
+example : cleanP [32, 49, 8211, 65296, 96, 46, 50] [32, 46] = [49, 45, 48, 39, 50] := by decide +kernel
+example : Gen.util.clean [32, 49, 8211, 50] [32, 45] = .ok [49, 50] := by
+  rw [clean_eq]; exact congrArg _ (by decide +kernel)
+example : cleanP [49, 65, 50] [32, 45] = [49, 65, 50] := cleanP_of_alnum (by decide) (by decide)
+example : Gen.util.isdigits [49, 50] = .ok true := by rw [isdigits_eq]; exact congrArg _ (by decide)
+example : Gen.util.isdigits [49, 0x0661] = .ok false := by rw [isdigits_eq]; exact congrArg _ (by decide)
 
 end Py
